@@ -215,6 +215,64 @@ def readsUnderLock (wal : Bool) (prog : List Step) : Bool :=
     | some (.io .readPages) => holdsRead wal (heldAfter [] (prog.take n))
     | _ => true
 
+/-! ### what a WAL-mode reader notices afterwards (cache validation, wal.c `walTryBeginRead` /
+pager.c `pagerBeginReadTransaction`) — a sketch of SQLite internals, used to state the known
+finding `restore-live-wal-stale-readers`; nothing above depends on it -/
+
+/-- the part of the wal-index header a reader compares: is it initialised, how many frames are in
+the WAL, the WAL's salt -/
+structure WalHdr where
+  valid : Bool
+  mxFrame : Nat
+  salt : Nat
+deriving Repr, DecidableEq, Inhabited
+
+structure WalDb where
+  /-- which database the file holds (0 = before the restore, 1 = the snapshot) -/
+  gen : Nat
+  /-- frames in the -wal file, and its salt -/
+  walFrames : Nat
+  walSalt : Nat
+  /-- the wal-index header in the -shm file -/
+  shm : WalHdr
+deriving Repr, DecidableEq, Inhabited
+
+structure WalReader where
+  /-- its private copy of the wal-index header -/
+  hdr : WalHdr
+  /-- the database its cached pages (page 1 and the schema among them) belong to -/
+  cacheGen : Option Nat
+deriving Repr, DecidableEq, Inhabited
+
+/-- WAL recovery rebuilds the wal-index header from the -wal file alone; an empty WAL always gives
+the same header -/
+def walRecover (f : WalDb) : WalDb :=
+  { f with shm := ⟨true, f.walFrames, if f.walFrames = 0 then 0 else f.walSalt⟩ }
+
+/-- start of a read transaction: an uninitialised header is recovered (and the recovering
+connection drops its cache); otherwise the cache is dropped exactly when the header differs from
+the connection's copy -/
+def walBeginRead (f : WalDb) (r : WalReader) : WalDb × WalReader :=
+  if !f.shm.valid then
+    let f' := walRecover f
+    (f', { hdr := f'.shm, cacheGen := none })
+  else if f.shm = r.hdr then (f, r)
+  else (f, { hdr := f.shm, cacheGen := none })
+
+/-- the databases a query sees that touches both a cached and an uncached page -/
+def walQueryGens (f : WalDb) (r : WalReader) : List Nat :=
+  match r.cacheGen with
+  | some g => if g = f.gen then [g] else [g, f.gen]
+  | none => [f.gen]
+
+def walAfterQuery (f : WalDb) (r : WalReader) : WalReader :=
+  { r with cacheGen := some (r.cacheGen.getD f.gen) }
+
+/-- `sqlite3_restore::restore` on a WAL destination: truncate the WAL, copy the snapshot over the
+file, zero the wal-index header -/
+def walRestore (f : WalDb) (snapshotGen : Nat) : WalDb :=
+  { gen := snapshotGen, walFrames := 0, walSalt := f.walSalt, shm := ⟨false, 0, 0⟩ }
+
 /-! ### printing the restore's program for the correspondence with a syscall trace -/
 
 def Slot.name : Slot → String
